@@ -491,12 +491,24 @@ def model_requests(case, res):
     return []
 
 
-def _close(a, b, rel=1e-9, abs_=0.0):
+def _close(a, b, rel=1e-9, abs_=0.0, nan_ok=False):
+    """|a-b| <= rel*max(|a|,|b|) + abs_.  A NaN / inf on either side is a MISMATCH (never silently equal); only the
+    model-vs-implementation comparison passes nan_ok=True, where both sides producing NaN (or the same infinity) for a
+    degenerate input (s0 = 0, ...) is agreement"""
     if a is None or b is None:
         return False
-    if math.isnan(a) or math.isnan(b):
-        return math.isnan(a) and math.isnan(b)
+    if not (math.isfinite(a) and math.isfinite(b)):
+        return nan_ok and ((math.isnan(a) and math.isnan(b)) or a == b)
     return abs(a - b) <= rel * max(abs(a), abs(b)) + abs_
+
+
+def _gt(a, b):
+    """a > b, TRUE when either side is NaN (a plain `a > b` is silently False then)"""
+    return not (a <= b)
+
+
+def _lt(a, b):
+    return not (a >= b)
 
 
 def _opt_reply(rep):
@@ -523,7 +535,7 @@ def _cmp_val(name, rep, impl, rel=1e-9, abs_=0.0):
         return []
     if "ok" not in impl:
         return [f"{name}: model returns {val!r}, implementation {impl}"]
-    if not _close(val, impl["ok"], rel, abs_):
+    if not _close(val, impl["ok"], rel, abs_, nan_ok=True):
         return [f"{name}: model {val!r} implementation {impl['ok']!r}"]
     return []
 
@@ -533,10 +545,10 @@ def _cmp_thr(name, rep, impl, obj, span):
     st, val = _opt_reply(rep)
     if st != "ok" or "ok" not in impl or val is None:
         return _cmp_val(name, rep, impl)
-    if abs(val - impl["ok"]) <= 1e-9 * max(span, abs(val)):
+    if abs(val - impl["ok"]) <= 1e-9 * max(span, abs(val)):          # (False for NaN: falls through to the report)
         return []
     fa, fb = obj(val), obj(impl["ok"])
-    if abs(fa - fb) <= 1e-9 * max(abs(fa), abs(fb)) + 1e-14:
+    if abs(fa - fb) <= 1e-9 * max(abs(fa), abs(fb)) + (1e-14 if fa > 1e-6 else 0.0):
         return []
     return [f"{name}: model {val!r} (objective {fa!r}) implementation {impl['ok']!r} (objective {fb!r})"]
 
@@ -550,7 +562,7 @@ def compare(case, res, reqs, replies):
     if k == "q":
         for x, rep, v in zip(case["xs"], replies, res["q"]):
             st, val = _opt_reply(rep)
-            if st != "ok" or not _close(val, v, 1e-11, 1e-300):
+            if st != "ok" or not _close(val, v, 1e-11, 1e-300, nan_ok=True):
                 out.append(f"Q({x!r}): model {val!r} implementation {v!r}")
         return out
     if k == "ook":
@@ -587,7 +599,7 @@ def compare(case, res, reqs, replies):
                     if any(c["a"] != -math.inf or c["b"] != math.inf or c["extra"] for c in q):   # (np.vectorize probes its first element twice)
                         out.append(f"quad called {len(q)} times / limits ({q[0]['a']}, {q[0]['b']})")
                     for x, a, b in zip(q[0]["xs"], vals, q[0]["fx"]):
-                        if not _close(a, b, 1e-9, 1e-15):
+                        if not _close(a, b, 1e-9, 1e-15, nan_ok=True):
                             out.append(f"integrand handed to quad at x={x}: model {a!r} implementation {b!r} ({dec}, M={M})")
         return out
     if k in ("rx", "err-rx"):
@@ -601,7 +613,7 @@ def compare(case, res, reqs, replies):
                     iv = ([impl["ok"]["mu"][0][0], impl["ok"]["mu"][1][0], impl["ok"]["mu_ase"]] if name == "average_voltages"
                           else [impl["ok"][0][0], impl["ok"][1][0]])
                     for a, b in zip(vals, iv):
-                        if not _close(a, b, 1e-9, 1e-300):
+                        if not _close(a, b, 1e-9, 1e-300, nan_ok=True):
                             out.append(f"utils.{name}: model {vals} implementation {iv}")
                             break
                 elif "ok" in impl:
@@ -614,7 +626,7 @@ def compare(case, res, reqs, replies):
         if "ok" in impl:
             impl["ok"] = impl["ok"][0]
         # KeyError / AttributeError are `Other` on both sides
-        out += _cmp_val("utils.theory_BER", rep, impl, 1e-9, 1e-13)
+        out += _cmp_val("utils.theory_BER", rep, impl, 1e-9, 1e-13 if str(case["modulation"]).lower() == "ppm" else 0.0)
         return out
     if k == "optthr":
         return _cmp_val("utils.optimum_threshold", replies[0], res["thr"], 1e-9, 1e-12 * abs(case["mu1"]))
@@ -679,7 +691,7 @@ def oracle(case, res):
     if k == "q":
         for x, a, b in zip(case["xs"], res["q"], res["qvec"]):
             ref = float(_Q(x))
-            if abs(a - ref) > 1e-12 * ref + 1e-300 or a != b:
+            if _gt(abs(a - ref), 1e-12 * ref + 1e-300) or not (a == b):
                 v.append(("C13:Q", f"utils.Q({x}) = {a!r} (vectorised {b!r}), Gaussian tail {ref!r}"))
         return v
     if k == "ook":
@@ -702,15 +714,17 @@ def oracle(case, res):
                                 ("ppm-soft", res["ppm_vec_soft"], res["ppm_each_soft"])):
             if "ok" not in vec or any("ok" not in e for e in each):
                 v.append((f"C13:vectorise:{name}", f"array call {vec} / scalar calls {each}"))
-            elif len(vec["ok"]) != 3 or any(not _close(a, e["ok"], 1e-12, 1e-18) for a, e in zip(vec["ok"], each)):
+            elif len(vec["ok"]) != 3 or any(not _close(a, e["ok"], 1e-12, 0.0) for a, e in zip(vec["ok"], each)):
                 v.append((f"C13:vectorise:{name}", f"theory_BER on arrays {vec['ok']} != element-wise {[e['ok'] for e in each]}"))
         return v
     if k == "rx":
         return _oracle_rx(case, res)
     if k == "rxvec":
+        # T = 0 with ER = inf and no ASE: a noise-free OFF level (s0 = 0), outside "s0, s1 > 0" — the code returns NaN there
+        degenerate = "ok" in res["nvar"] and any(x <= 0 for x in res["nvar"]["ok"][0])
         if "ok" not in res["tb"] or any("ok" not in e for e in res["tb_each"]):
             v.append(("C13:vectorise:utils", f"utils.theory_BER array call {res['tb']} / scalar {res['tb_each']}"))
-        elif len(res["tb"]["ok"]) != 3 or any(not _close(a, e["ok"][0], 1e-12, 1e-18) for a, e in zip(res["tb"]["ok"], res["tb_each"])):
+        elif len(res["tb"]["ok"]) != 3 or any(not _close(a, e["ok"][0], 1e-12, 0.0, nan_ok=degenerate) for a, e in zip(res["tb"]["ok"], res["tb_each"])):
             v.append(("C13:vectorise:utils", f"utils.theory_BER on arrays {res['tb']['ok']} != element-wise {[e['ok'][0] for e in res['tb_each']]}"))
         for name in ("avg", "nvar"):
             if "ok" not in res[name]:
@@ -758,18 +772,18 @@ def _oracle_ook(case, res):
     tmin = _true_min(f, 0.0, mu)
     gmin = _grid_ref(f, 0.0, mu, 1000)
     tol = 1e-9 * tmin + 1e-300
-    if th < tmin - tol:
+    if _lt(th, tmin - tol):
         v.append(("C13:ook-below-min", f"ook.theory_BER({mu},{s0},{s1}) = {th!r} is below the true minimum {tmin!r}"))
-    if th > gmin * (1 + 1e-9) + 1e-300:
+    if _gt(th, gmin * (1 + 1e-9) + 1e-300):
         v.append(("C13:ook-grid", f"ook.theory_BER({mu},{s0},{s1}) = {th!r} exceeds the minimum over the 1000-point grid {gmin!r}"))
     if s0 == s1:
         q = float(_Q(mu / (2 * s0)))
         h = mu / 999
         # grid error: some grid point lies within h/2 of the midpoint
         up = float(f(mu / 2 + h / 2))
-        if th < q * (1 - 1e-9) or th > up * (1 + 1e-9) + 1e-300:
+        if _lt(th, q * (1 - 1e-9)) or _gt(th, up * (1 + 1e-9) + 1e-300):
             v.append(("C13:ook-equal-sigma", f"ook.theory_BER({mu},{s0},{s0}) = {th!r}, Q(mu/2s) = {q!r} (grid bound {up!r})"))
-        if abs(thr - (mu0 + mu1) / 2) > h / 2 * (1 + 1e-6) + 1e-12 * abs(mu1):
+        if _gt(abs(thr - (mu0 + mu1) / 2), h / 2 * (1 + 1e-6) + 1e-12 * abs(mu1)):
             v.append(("C13:ook-threshold-mid", f"equal sigmas: threshold {thr!r} is not the midpoint {(mu0 + mu1) / 2!r} (grid step {h!r})"))
     if not (mu0 - 1e-12 * abs(mu0) <= thr <= mu1 + 1e-12 * abs(mu1)):
         v.append(("C13:ook-threshold-range", f"threshold {thr!r} outside [{mu0}, {mu1}]"))
@@ -777,7 +791,7 @@ def _oracle_ook(case, res):
     fe = float(f(thr - mu0))
     if not _close(est, fe, 1e-7, 1e-300):
         v.append(("C13:ook-estimator", f"BER_analizer(estimator) = {est!r}, error integral at the returned threshold = {fe!r}"))
-    if est < tmin - tol or est > gmin * (1 + 1e-9) + 1e-300:
+    if _lt(est, tmin - tol) or _gt(est, gmin * (1 + 1e-9) + 1e-300):
         v.append(("C13:ook-estimator-min", f"BER_analizer(estimator) = {est!r} not in [true minimum {tmin!r}, grid minimum {gmin!r}]"))
     if not _close(est, th, 1e-9, 1e-300):
         v.append(("C13:ook-estimator-theory", f"estimator {est!r} != theory_BER(mu1-mu0) {th!r}"))
@@ -787,12 +801,12 @@ def _oracle_ook(case, res):
     slack = 1e-12 * (abs(d) + abs(mu1)) / min(s0, s1) * 40 + 1e-9
     if not _close(es, est, slack, 1e-300):
         v.append(("C13:ook-shift", f"estimator changes under a common shift of the levels by {d}: {est!r} -> {es!r}"))
-    if abs((ts - d) - thr) > 1e-9 * (abs(d) + abs(mu1)) and not _close(float(f(ts - d - mu0)), fe, 1e-9 + slack, 1e-300):
+    if _gt(abs((ts - d) - thr), 1e-9 * (abs(d) + abs(mu1))) and not _close(float(f(ts - d - mu0)), fe, 1e-9 + slack, 1e-300):
         v.append(("C13:ook-shift-threshold", f"threshold does not follow a common shift by {d}: {thr!r} -> {ts!r}"))
     # bounds, monotone in mu
     if not (0 <= th <= 0.5 * (1 + 1e-12)):
         v.append(("C13:ook-bound", f"ook.theory_BER = {th!r} outside [0, 1/2]"))
-    if res["theory_up"]["ok"] > th * (1 + 1e-12) + 1e-300:
+    if _gt(res["theory_up"]["ok"], th * (1 + 1e-12) + 1e-300):
         v.append(("C13:ook-monotone", f"ook.theory_BER increases with mu: {th!r} at {mu}, {res['theory_up']['ok']!r} at {1.07 * mu}"))
     return v
 
@@ -814,9 +828,9 @@ def _oracle_ppm(case, res):
     tmin = _true_min(f, 0.0, mu) * fac
     gmin = _grid_ref(f, 0.0, mu, 1000) * fac
     a14 = 4e-14      # 1 - (1 - x): absolute rounding
-    if hard < tmin - 1e-9 * tmin - a14:
+    if _lt(hard, tmin - 1e-9 * tmin - a14):
         v.append(("C13:ppm-below-min", f"ppm.theory_BER(hard, M={M}) = {hard!r} below the true minimum {tmin!r}"))
-    if hard > gmin * (1 + 1e-9) + a14:
+    if _gt(hard, gmin * (1 + 1e-9) + a14):
         v.append(("C13:ppm-grid", f"ppm.theory_BER(hard, M={M}) = {hard!r} exceeds the 1000-point grid minimum {gmin!r}"))
     if not (mu0 - 1e-12 * abs(mu0) <= thr <= mu1 + 1e-12 * abs(mu1)):
         v.append(("C13:ppm-threshold-range", f"threshold {thr!r} outside [{mu0}, {mu1}]"))
@@ -825,32 +839,34 @@ def _oracle_ppm(case, res):
         v.append(("C13:ppm-estimator", f"BER_analizer(estimator, hard) = {eh!r}, formula at the returned threshold = {fe!r}"))
     if not _close(eh, hard, 1e-9, a14):
         v.append(("C13:ppm-estimator-theory", f"estimator(hard) {eh!r} != theory_BER(mu1-mu0, hard) {hard!r}"))
-    if not _close(es, soft, 1e-9, 3e-8):
+    if not _close(es, soft, 1e-9, 1e-12):
         v.append(("C13:ppm-estimator-theory", f"estimator(soft) {es!r} != theory_BER(mu1-mu0, soft) {soft!r}"))
-    # soft decision: closed form for M = 2, never larger than hard, quad tolerance 1.5e-8 on the integral
-    qtol = 1.5e-8 * fac + 1e-9 * soft
+    # soft decision: closed form for M = 2, never larger than hard.  `1 - I/sqrt(2 pi)` has an absolute rounding of a few 1e-16
+    # and quad is observed to deliver the integral to ~1e-14 on these integrands (its documented default 1.5e-8 would hide an
+    # error in every BER below 1e-8): 1e-12 absolute
+    qtol = 1e-12 * fac + 1e-9 * abs(soft)
     if M == 2:
         q = float(_Q(mu / math.sqrt(s0 ** 2 + s1 ** 2)))
-        if abs(soft - q) > qtol + 1e-9 * q:
+        if _gt(abs(soft - q), qtol + 1e-9 * q):
             v.append(("C13:ppm-soft-M2", f"ppm.theory_BER(soft, M=2) = {soft!r}, Q(mu/sqrt(s0^2+s1^2)) = {q!r}"))
-    if soft > hard + qtol + a14:
+    if _gt(soft, hard + qtol + a14):
         v.append(("C13:ppm-soft-le-hard", f"M={M}: soft {soft!r} > hard {hard!r}"))
     for name, val in (("hard", hard), ("soft", soft), ("est-hard", eh), ("est-soft", es)):
         if not (-qtol - a14 <= val <= fac * (1 + 1e-12)):
             v.append(("C13:ppm-bound", f"{name}: BER {val!r} outside [0, M/(2(M-1)) = {fac}]"))
     for dec, val in (("hard", hard), ("soft", soft)):
         up = res["theory_up_" + dec]["ok"]
-        if up > val * (1 + 1e-9) + (a14 if dec == "hard" else 2 * qtol):
+        if _gt(up, val * (1 + 1e-9) + (a14 if dec == "hard" else 2 * qtol)):
             v.append((f"C13:ppm-monotone:{dec}", f"ppm.theory_BER({dec}) increases with mu: {val!r} at {mu}, {up!r} at {1.07 * mu}"))
     # shift invariance
     d = case["shift"]
     slack = 1e-12 * (abs(d) + abs(mu1)) / min(s0, s1) * 40 * M + 1e-9
-    for dec, tol in (("hard", a14), ("soft", 3e-8)):
+    for dec, tol in (("hard", a14), ("soft", 1e-12)):
         a, b = res["est_" + dec]["ok"], res["est_shift_" + dec]["ok"]
         if not _close(a, b, slack, tol):
             v.append(("C13:ppm-shift", f"estimator({dec}) changes under a common shift by {d}: {a!r} -> {b!r}"))
     ts = res["thr_shift"]["ok"]
-    if abs((ts - d) - thr) > 1e-9 * (abs(d) + abs(mu1)) and not _close(float(f(ts - d - mu0)) * fac, fe, 1e-9 + slack, a14):
+    if _gt(abs((ts - d) - thr), 1e-9 * (abs(d) + abs(mu1))) and not _close(float(f(ts - d - mu0)) * fac, fe, 1e-9 + slack, a14):
         v.append(("C13:ppm-shift-threshold", f"threshold does not follow a common shift by {d}: {thr!r} -> {ts!r}"))
     return v
 
@@ -893,6 +909,8 @@ def _oracle_rx(case, res):
         tag = "C13:unamplified-ignores-amplify-flag" if not case["amplify"] else "C13:variances"
         v.append((tag, f"noise_variances = {got_S}, thermal+shot+sig-ASE+ASE-ASE of the receiver model = {S} (amplify={case['amplify']})"))
     # --- theory_BER = error integral on the levels / variances returned by average_voltages / noise_variances
+    if not all(math.isfinite(x) for x in got_S + got_mu):
+        return v or [("C13:variances", f"average_voltages / noise_variances returned non-finite values: {got_mu} {got_S}")]
     if min(got_S) <= 0:
         return v          # T = 0 with ER = inf and no ASE: a noise-free OFF level, outside "s0, s1 > 0" of the error-integral clauses
     s0, s1 = math.sqrt(got_S[0]), math.sqrt(got_S[1])
@@ -910,7 +928,7 @@ def _oracle_rx(case, res):
         from scipy.integrate import quad
         I = quad(lambda x: (1 - _Q((m1 - m0 + s1 * x) / s0)) ** (M - 1) * math.exp(-x * x / 2), -np.inf, np.inf)[0]
         want = (1 - I / math.sqrt(2 * math.pi)) * fac
-        if abs(tb - want) > 3e-8 * fac + 1e-9 * want:
+        if _gt(abs(tb - want), 1e-12 * fac + 1e-9 * want):
             v.append(("C13:tb-soft", f"utils.theory_BER(soft) = {tb!r}, Gaussian integral on the model's levels/variances = {want!r}"))
     elif case["threshold"] is not None:
         want = float(f(case["threshold"] * m1 + (1 - case["threshold"]) * m0))
@@ -919,16 +937,16 @@ def _oracle_rx(case, res):
     else:
         tmin = _true_min(f, m0, m1)
         gmin = _grid_ref(f, m0, m1, 5000)
-        if tb < tmin - 1e-9 * tmin - a_abs or tb > gmin * (1 + 1e-9) + a_abs:
+        if _lt(tb, tmin - 1e-9 * tmin - a_abs) or _gt(tb, gmin * (1 + 1e-9) + a_abs):
             v.append(("C13:tb-integral", f"utils.theory_BER = {tb!r} not in [true minimum {tmin!r}, 5000-point grid minimum {gmin!r}] of the error "
                       f"integral on the levels/variances of average_voltages/noise_variances"))
-    if not (-1e-7 <= tb <= fac * (1 + 1e-12)):
+    if not (-1e-12 <= tb <= fac * (1 + 1e-12)):
         v.append(("C13:tb-bound", f"utils.theory_BER = {tb!r} outside [0, {fac}]"))
     # --- decreasing with received power (optimum threshold only)
     if case["threshold"] is None and "ok" in res.get("tb_up", {}):
         up = res["tb_up"]["ok"][0]
-        slack = 3e-8 * fac if dec == "soft" and mod == "ppm" else a_abs
-        if up > tb * (1 + 1e-3) + slack:
+        slack = 1e-12 * fac if dec == "soft" and mod == "ppm" else a_abs
+        if _gt(up, tb * (1 + 1e-3) + slack):
             v.append(("C13:tb-monotone", f"utils.theory_BER increases with received power: {tb!r} at {case['P_avg']} dBm, {up!r} one dB above"))
     return v
 
@@ -962,7 +980,7 @@ def _oracle_optthr(case, res):
             return v or [("C13:raises:optimum_threshold", f"{res['each']}")]
         for i in range(3):
             items.append((case["mu0"], case["mu1"][i], case["S0"][i], case["S1"][i], res["thr"]["ok"][i]))
-            if not _close(res["thr"]["ok"][i], res["each"][i]["ok"], 1e-12, 1e-15):
+            if not _close(res["thr"]["ok"][i], res["each"][i]["ok"], 1e-12, 0.0, nan_ok=True):
                 v.append(("C13:vectorise:optimum_threshold", f"array result {res['thr']['ok']} != element-wise {[e['ok'] for e in res['each']]}"))
                 break
     M = 2 if case["modulation"].lower() == "ook" else case["M"]
@@ -980,10 +998,10 @@ def _oracle_optthr(case, res):
         scale = max(abs((thr - mu0) ** 2 / (2 * S0)), abs((thr - mu1) ** 2 / (2 * S1)), abs(math.log(2 * math.pi * S0)), 1.0)
         # cancellation in the closed form when S1 -> S0
         cond = 1.0 if S0 == S1 else max(1.0, (S0 + S1) / abs(S1 - S0))
-        if abs(lhs - rhs) > 1e-9 * scale * cond:
+        if _gt(abs(lhs - rhs), 1e-9 * scale * cond):
             v.append(("C13:optthr-crossing", f"optimum_threshold({mu0},{mu1},{S0},{S1},M={M}) = {thr!r} does not solve (M-1)N(r;mu0,S0) = N(r;mu1,S1): "
                       f"log sides {lhs!r} vs {rhs!r}"))
-        if S0 == S1 and M == 2 and abs(thr - (mu0 + mu1) / 2) > 1e-12 * max(abs(mu0), abs(mu1)):
+        if S0 == S1 and M == 2 and _gt(abs(thr - (mu0 + mu1) / 2), 1e-12 * max(abs(mu0), abs(mu1))):
             v.append(("C13:optthr-midpoint", f"equal variances, OOK: threshold {thr!r} is not the midpoint {(mu0 + mu1) / 2!r}"))
     return v
 
